@@ -589,12 +589,40 @@ def l5_l6(e: Engine, rep: Report):
         rep.functions.add(ctx.func.qname)
         polls = pool._poll_sites(e, g)
         names = set()
+        role = {}
         for s in polls:
             for el in ast.walk(s.ast.targets[0]):
                 if isinstance(el, ast.Name):
                     names.add(path_of(el, s.frame))
+            t0 = s.ast.targets[0]
+            if isinstance(t0, (ast.Tuple, ast.List)):
+                for i, el in enumerate(t0.elts):
+                    q = path_of(el, s.frame)
+                    if q:
+                        role[q] = i
+
+        def same_pair(n):
+            """`result, envelope = result, envelope` of a request pair
+            handed on as it is (what a `for` over an inlined generator
+            receives from `yield result, envelope`): the pairing stays"""
+            a = n.ast
+            if not (isinstance(a, ast.Assign) and len(a.targets) == 1 and
+                    isinstance(a.targets[0], (ast.Tuple, ast.List)) and
+                    isinstance(a.value, (ast.Tuple, ast.List)) and
+                    len(a.value.elts) == len(a.targets[0].elts)):
+                return False
+            vf = n.extra.get('yield_frame') or n.frame
+            for t, v in zip(a.targets[0].elts, a.value.elts):
+                rt = role.get(path_of(t, n.frame))
+                rv = role.get(path_of(v, vf))
+                if rt is None or rv is None or rt != rv:
+                    return False
+            return True
         for n in g.of_kind('stmt', 'iter', 'handler', 'with_enter'):
             tg = []
+            if n.kind == 'stmt' and isinstance(n.ast, ast.Assign) and \
+                    same_pair(n):
+                continue
             if n.kind == 'stmt' and isinstance(n.ast, ast.Assign):
                 tg = n.ast.targets
             elif n.kind == 'stmt' and isinstance(n.ast, (ast.AugAssign,
